@@ -144,6 +144,84 @@ def main(ctx):
                               replay={'kind': 'server-pair', 'phase': phase,
                                       'pair': [a, b]})
 
+    # ---- 2a'. cleartext phase and peers WITHOUT strict key exchange ----
+    # the raw client itself sends the extra message during the first
+    # exchange (after its KEXINIT / right before its NEWKEYS), with and
+    # without offering strict key exchange; and the encrypted phases again
+    # against a server that negotiated no strict key exchange
+    ntwin = G.run_server_case(no_strict=True)
+    ctx.require(not ntwin['closed'] and ntwin['seen'] == twin['seen'] and
+                ntwin['log'] == twin['log'],
+                f'non-strict server twin run unexpected: {ntwin}')
+    for strict in (True, False):
+        for point in ('after_kexinit', 'before_newkeys'):
+            for (cls, vname), (t, body) in sorted(types.items()):
+                if cls in ('NEWKEYS', 'KEXMSG', 'KEXOTHER') or \
+                        (quick and vname != 'wellformed'):
+                    continue            # these belong to the exchange itself
+                r = G.run_server_case(None, no_strict=not strict,
+                                      cleartext={point: [(t, body)]})
+                n += 1
+                ctx.count(('srv-clear', strict, point, cls, vname),
+                          nontrivial=True)
+                same = (not r['closed'] and
+                        [x for x in r['seen'] if x != 3] == twin['seen'] and
+                        r['log'] == twin['log'])
+                dead = not r['closed'] and not r['seen'] and not r['log']
+                pred = tab.get(('server', 'P1', cls, strict))
+                sig = {'module': 'Gate', 'role': 'server', 'phase': 'P1',
+                       'point': point, 'strict': strict, 'class': cls,
+                       'variant': vname}
+                rep = {'kind': 'server-clear', 'strict': strict,
+                       'point': point, 'type': t, 'body': body.hex()}
+                if not r['closed'] and not same and not dead:
+                    ctx.violation(sig, f'server, first key exchange ({point}, '
+                                  f'strict={strict}): {cls}/{vname} (type {t}) '
+                                  f'took effect: seen={r["seen"]} '
+                                  f'log={r["log"]}', replay=rep)
+                elif strict and not r['closed'] and not dead and \
+                        cls != 'KEXINIT':
+                    ctx.violation(dict(sig, clause='StrictNoFiller'),
+                                  f'strict key exchange: {cls} (type {t}) '
+                                  f'during the initial exchange ({point}) was '
+                                  f'tolerated', replay=rep)
+                elif vname == 'wellformed' and pred is not None:
+                    obs = 'fatal' if (r['closed'] or dead) else 'same'
+                    if (pred == 'fatal') != (obs == 'fatal'):
+                        ctx.divergence(f'server P1 {point} strict={strict} '
+                                       f'{cls}: model {pred}, code {obs}')
+                if r['loop_exceptions']:
+                    ctx.violation(dict(sig, loop=True),
+                                  f'server P1 {cls}: exception reached the '
+                                  f'event loop: {r["loop_exceptions"][0]}',
+                                  replay=rep)
+    for phase in G.SERVER_PHASES:
+        for (cls, vname), (t, body) in sorted(types.items()):
+            if vname != 'wellformed':
+                continue
+            r = G.run_server_case(phase, t, body, no_strict=True)
+            n += 1
+            ctx.count(('srv-nostrict', phase, cls), nontrivial=True)
+            same = (not r['closed'] and
+                    [x for x in r['seen'] if x != 3] == twin['seen'] and
+                    r['log'] == twin['log'])
+            pred = tab.get(('server', G.MODEL_PHASE.get(phase, phase), cls,
+                            False))
+            expected_cls = cls in ('SERVICE_REQUEST', 'USERAUTH_REQUEST',
+                                   'KEXINIT', 'GLOBAL_REQUEST',
+                                   'CHANNEL_OPEN', 'CHANNEL_MSG',
+                                   'DISCONNECT', 'EXT_INFO')
+            if not r['closed'] and not same and not (
+                    expected_cls and pred == 'process'):
+                ctx.violation({'module': 'Gate', 'role': 'server',
+                               'phase': phase, 'strict': False, 'class': cls},
+                              f'server {phase} (no strict kex): injected '
+                              f'{cls} (type {t}) took effect: seen='
+                              f'{r["seen"]} log={r["log"]}',
+                              replay={'kind': 'server', 'phase': phase,
+                                      'type': t, 'body': body.hex(),
+                                      'no_strict': True})
+
     # ---- 2b. real client, malicious raw server ----
     ctwin = G.run_client_case()
     ctx.require(ctwin['outcome'] == 'connected' and
